@@ -137,7 +137,8 @@ structure CallObs where
 /-- valid call: handler saw the same typed values; caller got the handler's typed results, or an
     action error with the handler's code -/
 def callOk (fs : Facts) (act : SAct) (args : List (Str × Val)) (script : HandlerRes) (o : CallObs) : Bool :=
-  if !validArgs fs act args then true else
+  -- an argument assignment the definition rejects (not listed, out of range, missing …) never reaches the handler
+  if !validArgs fs act args then o.seen.isNone else
   (match o.seen with | some s => dictEq s (normDict act.ins args) | none => false)
   && (match script with
       | .ret vals | .retVars vals _ =>
